@@ -9,6 +9,24 @@ theorem gen_melodies : Gen.melodies = Fw.melodies := by decide
 theorem gen_melody_names : Gen.parserMelodyNames = ["alarm", "error", "notify", "scale_c", "siren", "startup", "success"] := by decide
 
 theorem melody_names_agree : ∀ n, n ∈ Gen.parserMelodyNames ↔ (Fw.melodies.lookup n).isSome = true := by
-  sorry
+  intro n
+  rw [gen_melody_names]
+  constructor
+  · intro h
+    simp only [List.mem_cons, List.not_mem_nil, or_false] at h
+    rcases h with h | h | h | h | h | h | h <;> subst h <;> decide
+  · intro h
+    simp only [List.mem_cons, List.not_mem_nil, or_false]
+    simp only [melodies, List.lookup_cons] at h
+    by_cases h1 : n = "success"; · simp [h1]
+    by_cases h2 : n = "error"; · simp [h2]
+    by_cases h3 : n = "startup"; · simp [h3]
+    by_cases h4 : n = "notify"; · simp [h4]
+    by_cases h5 : n = "alarm"; · simp [h5]
+    by_cases h6 : n = "scale_c"; · simp [h6]
+    by_cases h7 : n = "siren"; · simp [h7]
+    have hb : ∀ s : String, ¬ n = s → (n == s) = false := fun s hs => by simpa using hs
+    rw [hb _ h1, hb _ h2, hb _ h3, hb _ h4, hb _ h5, hb _ h6, hb _ h7] at h
+    simp at h
 
 end Reduino.GenOb
